@@ -123,6 +123,16 @@ type (
 
 const VerifDir = "/verif"
 
+// outDir: where run directories, replays and evidence go. /verif, unless a
+// side run (seed testing against a scratch worktree while something else runs)
+// redirects them with VERIF_OUT; known_findings.json is always read from /verif.
+func outDir() string {
+	if v := os.Getenv("VERIF_OUT"); v != "" {
+		return v
+	}
+	return VerifDir
+}
+
 type knownFinding struct {
 	Property  string `json:"property"`
 	Kind      string `json:"kind"` // finding | fixed
@@ -339,7 +349,7 @@ func runParent(e Engine, seed uint64, tier, only string, inproc bool) int {
 		}
 		ids[c.ID] = true
 	}
-	runDir := filepath.Join(VerifDir, ".build", "run", prop+"-"+tier)
+	runDir := filepath.Join(outDir(), ".build", "run", prop+"-"+tier)
 	_ = os.RemoveAll(runDir)
 	if err := os.MkdirAll(runDir, 0o755); err != nil {
 		fmt.Println(err)
@@ -439,7 +449,7 @@ func runParent(e Engine, seed uint64, tier, only string, inproc bool) int {
 	knownSeen := map[string]int{}
 	newSigs := map[string]int{}
 	exit := 0
-	_ = os.MkdirAll(filepath.Join(VerifDir, "replays"), 0o755)
+	_ = os.MkdirAll(filepath.Join(outDir(), "replays"), 0o755)
 	for _, x := range vios {
 		if k := matchKnown(known, x.v.Sig); k != nil {
 			knownSeen[k.Signature]++
@@ -456,7 +466,7 @@ func runParent(e Engine, seed uint64, tier, only string, inproc bool) int {
 		}
 		js, _ := json.MarshalIndent(rp, "", " ")
 		sum := sha1.Sum(js)
-		path := filepath.Join(VerifDir, "replays",
+		path := filepath.Join(outDir(), "replays",
 			prop+"-"+hex.EncodeToString(sum[:6])+".json")
 		_ = os.WriteFile(path, js, 0o644)
 		fmt.Printf("VIOLATION property=%s replay=%s\n", prop, path)
@@ -508,8 +518,8 @@ func runParent(e Engine, seed uint64, tier, only string, inproc bool) int {
 		"violations": len(newSigs),
 	}
 	js, _ := json.MarshalIndent(ev, "", " ")
-	_ = os.MkdirAll(filepath.Join(VerifDir, "evidence"), 0o755)
-	if err := os.WriteFile(filepath.Join(VerifDir, "evidence", prop+".json"),
+	_ = os.MkdirAll(filepath.Join(outDir(), "evidence"), 0o755)
+	if err := os.WriteFile(filepath.Join(outDir(), "evidence", prop+".json"),
 		js, 0o644); err != nil {
 		fmt.Println(err)
 		return 3
